@@ -89,10 +89,18 @@ def survive(out, worker, nworkers):
         b = subprocess.run(["cargo", "build", "--offline", "--features", "verif-hooks"], cwd=wt, capture_output=True, text=True, env=env)
         if b.returncode != 0:
             log.write(f"{d.name} nobuild\n"); log.flush(); continue
+        # own process group, so that test binaries stuck in an endless loop die with cargo on timeout
+        import signal
+        pr = subprocess.Popen(["cargo", "test", "--workspace", "--no-fail-fast", "--offline"], cwd=wt, stdout=subprocess.PIPE,
+                              stderr=subprocess.PIPE, text=True, env=env, start_new_session=True)
         try:
-            t = subprocess.run(["cargo", "test", "--workspace", "--no-fail-fast", "--offline"], cwd=wt, capture_output=True, text=True, env=env, timeout=300)
+            so, se = pr.communicate(timeout=300)
         except subprocess.TimeoutExpired:
+            os.killpg(pr.pid, signal.SIGKILL)
+            pr.communicate()
             log.write(f"{d.name} timeout(killed by tests)\n"); log.flush(); continue
+        class T: pass
+        t = T(); t.stdout = so; t.returncode = pr.returncode
         oks = len(re.findall(r"^test result: ok", t.stdout, re.M))
         fails = len(re.findall(r"^test result: FAILED", t.stdout, re.M))
         if t.returncode == 0 and oks >= 4 and fails == 0:
